@@ -296,6 +296,32 @@ def run(rep, tier, rng):
     rep.extra["of_which_no_rule_matches"] = errors
 
 
+def macro_storm(rep, tier, rng):
+    """hundreds of uses that match NO rule (and uses whose expansion is itself rejected), nested in other macro uses or not, on ONE
+    interpreter (one thread) - and afterwards every use still selects its first matching rule, the bundled forms included"""
+    defs = ["(define-syntax pick (syntax-rules (k) ((pick k a) (quote (first a))) ((pick a) (quote (second a))) ((pick a b c) (quote (third a b c)))))",
+            "(define-syntax wrap (syntax-rules () ((wrap e) (list e))))"]
+    good = [("(pick k 1)", "V (y:first i:1)"), ("(pick 7)", "V (y:second i:7)"), ("(pick 3 4 5)", "V (y:third i:3 i:4 i:5)"),
+            ("(let ((t 1)) (cond ((= t 1) (car (wrap 2))) (else 0)))", "V i:2"), ("(wrap (pick 9))", "V ((y:second i:9))")]
+    bad = ["(pick 1 2)", "(pick)", "(pick 1 2 3 4)", "(wrap)", "(wrap (pick 1 2))", "(let ((t (pick 1 2))) t)", "(wrap (wrap (pick)))", "(cond)", "(let ((x)) x)"]
+    n = 400 if tier == "quick" else 3000
+    forms, want = list(defs), ["N", "N"]
+    for f, w in good:
+        forms.append(f); want.append(w)
+    for i in range(n):
+        forms.append(bad[i % len(bad)] if i < 30 else rng.choice(bad)); want.append("E syntax")
+    for f, w in good:
+        forms.append(f); want.append(w)
+    got = C.run_hx([("storm", "prog", ["std"] + forms)]).get("storm", [])
+    rep.count(len(forms)); rep.nontrivial(("macro-storm", n))
+    g2 = [x if not x.startswith("E ") else "E " + x.split(" ")[1] for x in got]
+    if g2 != want:
+        j = next((j for j in range(min(len(g2), len(want))) if g2[j] != want[j]), min(len(g2), len(want)))
+        rep.violation({"what": "after many rejected macro uses on one interpreter a use no longer expands by its first matching rule",
+                       "definitions": defs, "rejected_uses_before": max(0, j - len(defs) - len(good)), "use": forms[j] if j < len(forms) else None,
+                       "expected": want[j] if j < len(want) else None, "implementation": got[j] if j < len(got) else "(missing)"})
+
+
 def main(tier, seed):
     rep = C.Report(PROP, tier, seed)
     rng = random.Random(seed)
@@ -306,4 +332,5 @@ def main(tier, seed):
     ok = C.standard_proof_phase(rep, MODULES, directed_search=lambda r: run(r, tier, rng))
     if ok:
         run(rep, tier, rng)
+        macro_storm(rep, tier, rng)
     return rep.finish("cd lean && lake build RuschmProofs.C04 && lake env lean <#print axioms of every theorem in RuschmProofs/C04.lean>")
